@@ -112,6 +112,102 @@ SHAPES = {
     "enum_to_string": lambda p: any(static_type(p, c["a"][0]) in ENUMS(p) for c in calls(p, "int_to_string", "cast_string", "to_string") if c["a"]),
 }
 
+
+
+def _arm_lets(p):
+    for st in stmts(p):
+        if st["k"] == "match":
+            for arm in st["arms"]:
+                yield from lets(arm["b"])
+
+
+def _cmp_of_two_enum_types(p):
+    en = ENUMS(p)
+    for e in exprs(p):
+        if e["k"] == "bin" and e["s"] in CMP:
+            a, b = static_type(p, e["a"][0]), static_type(p, e["a"][1])
+            if a in en and b in en and a != b:
+                return True
+    return False
+
+
+def _binders(p):
+    """(name, declared type or kind) of every binder"""
+    for g in p["globals"]: yield g["n"], g["t"]
+    for f in p["funcs"]:
+        for n, t in zip(f["params"], f["ptys"]): yield n, t
+    for st in stmts(p):
+        if st["k"] == "let": yield st["s"], st["t"]
+        elif st["k"] in ("for", "forin"): yield st["s"], "<loop>"
+        elif st["k"] == "match":
+            for arm in st["arms"]: yield arm["bind"], "<variant>"
+
+
+def _name_bound_with_two_types(p):
+    seen = {}
+    for n, t in _binders(p):
+        if n in seen and seen[n] != t:
+            return True
+        seen.setdefault(n, t)
+    return False
+
+
+NON_SCALAR_ARRAY = re.compile(r"array<(?!int>|string>|bool>|float>)")
+
+SHAPES.update({
+    "comparison_of_two_enum_types": _cmp_of_two_enum_types,
+    "array_of_enum_type": lambda p: any(re.search(r"array<(%s)>" % "|".join(sorted(ENUMS(p)) or ["-"]), t) for _, t in all_types(p)),
+    "function_typed_let_in_match_arm": lambda p: any(l["t"].startswith("fn(") for l in _arm_lets(p)),
+    "name_bound_with_two_types": _name_bound_with_two_types,
+    # a local of type string initialised from a field of a struct / variant or an element of a tuple
+    "string_let_from_field_or_tuple": lambda p: any(l["t"] == "string" and l["a"] and l["a"][0]["k"] in ("field", "tidx") for l in lets(p)),
+    # a function whose result is a union with a string field
+    "function_returns_union_with_string_field": lambda p: any(f["ret"] == u["n"] and any("string" in v["ftys"] for v in u["variants"]) for f in p["funcs"] for u in p["unions"]),
+    "string_self_assignment": lambda p: any(st["k"] == "set" and st["a"][0]["k"] == "var" and st["a"][0]["s"] == st["s"] and static_type(p, st["a"][0]) == "string" for st in stmts(p)),
+    "array_type_with_non_scalar_elements": lambda p: any(NON_SCALAR_ARRAY.search(t) for _, t in all_types(p)),
+})
+
+# the shapes props/c04.py ties the F36-* findings to (same predicates, for programs met through the generator)
+SHAPES.update({
+    # (- -371), or (- G) where G is a constant global whose initialiser is a negative literal (the constant is pasted in)
+    "neg_of_negative_literal": lambda p: any(e["k"] == "un" and e["s"] == "-" and ((e["a"][0]["k"] == "int" and e["a"][0]["i"][0] >= 32768) or
+                                             (e["a"][0]["k"] == "var" and any(g["n"] == e["a"][0]["s"] and not g["m"] and g["init"]["k"] == "int" and g["init"]["i"][0] >= 32768 for g in p["globals"])))
+                                             for e in exprs(p)),
+    "literal_arithmetic": lambda p: any(e["k"] == "bin" and e["s"] in ("+", "-", "*") and all(a["k"] == "int" for a in e["a"]) for e in exprs(p)),
+    "self_comparison": lambda p: any(e["k"] == "bin" and e["s"] in CMP and e["a"][0] == e["a"][1] for e in exprs(p)),
+    "let_mentions_own_name": lambda p: any(any(e["k"] == "var" and e["s"] == l["s"] for e in exprs(l["a"])) for l in lets(p)),
+})
+
+ARITH = ("+", "-", "*", "/", "%")
+
+
+def _strlen_under_operator(p):
+    """str_length as an operand (possibly through further arithmetic) of an arithmetic or comparison operator"""
+    def has(e):
+        return (e["k"] == "call" and e["s"] == "str_length") or (e["k"] in ("bin", "un") and e["s"] in ARITH and any(has(a) for a in e["a"]))
+    return any(e["k"] == "bin" and e["s"] in ARITH + CMP and any(has(a) for a in e["a"]) for e in exprs(p))
+
+
+def _substring_start_past_end(p):
+    """str_substring whose start is a literal at or beyond the length of a literal string, or any non-literal operand"""
+    for c in calls(p, "str_substring"):
+        if len(c["a"]) == 3:
+            s0, a0 = c["a"][0], c["a"][1]
+            if s0["k"] != "str" or a0["k"] != "int" or a0["i"][3] >= len(s0["s"]):
+                return True
+    return False
+
+
+SHAPES.update({
+    "array_set_and_array_push": lambda p: bool(calls(p, "array_set")) and bool(calls(p, "array_push", "filter", "map", "array_slice", "array_remove_at")),
+    "global_initialised_by_call": lambda p: any(any(e["k"] == "call" and any(f["n"] == e["s"] for f in p["funcs"]) for e in exprs(g["init"])) for g in p["globals"]),
+    "tuple_with_composite_element": lambda p: any(re.search(r"\b(%s)\b|\(|array<" % "|".join(sorted(STRUCTS(p) | UNIONS(p)) or ["-"]), t[1:]) for _, t in all_types(p) if t.startswith("(")),
+    "strlen_under_operator": _strlen_under_operator,
+    "substring_start_past_end": _substring_start_past_end,
+    # a conversion to string in a program that has enum values (an int variable initialised from an enum value keeps the enum tag on the NanoVM)
+    "to_string_and_enum_values": lambda p: bool(calls(p, "int_to_string", "cast_string", "to_string")) and any(e["k"] == "enum" for e in exprs(p)),
+})
+
 # idiom variants of lib/gen_gx.py that produce the shapes above
 AVOIDABLE = ("matrix_literal", "struct_array_literal", "enum_array_literal", "unions2_array_of_unions", "nested_tuple_array", "tuple_field", "nested_tuple_field",
-             "global_struct", "global_tuple", "tuple_param", "map_changes_type", "list_more_ops", "strlen_loop_bound", "enum_to_string")
+             "global_struct", "global_tuple", "tuple_param", "map_changes_type", "strlen_loop_bound", "enum_to_string", "compare_two_enums", "enum_array", "global_init_call", "nested_tuple_in_tuple", "tuple_of_struct")
